@@ -127,7 +127,7 @@ theorem MsInv.leaves (E : Env) : Leaves E MsInv where
     exact Pres.modS_of (fun s hs => MsInv.of_same rfl rfl hs)
   modCtl := fun f h => Pres.modS_of (fun s hs => MsInv.of_same (h s).1 (h s).2.1 hs)
   setHst := fun _ => Pres.modS_of (fun s hs => MsInv.of_same rfl rfl hs)
-  addCustom := fun _ _ _ => Pres.modS_of (fun s hs => MsInv.of_same rfl rfl hs)
+  addCustom := fun _ _ _ _ => Pres.modS_of (fun s hs => MsInv.of_same rfl rfl hs)
 
 /-- In every reachable state — any history of public calls, any inputs, any RNG — there is one record per
     address and `num_members()` is exactly the number of active records. -/
